@@ -5,7 +5,7 @@ import json
 import re
 
 BLANK = {
-    "e": "", "who": "", "cid": 0, "api": "", "id": 0, "body": ["empty", ""], "big": False, "large": False, "slow": False, "detc": False, "mode": "", "et": "",
+    "e": "", "who": "", "cid": 0, "api": "", "id": 0, "body": ["empty", ""], "big": False, "large": False, "slow": False, "detc": False, "relrec": False, "rel": 0, "mode": "", "et": "",
     "name": "", "events": [], "idc": "ok", "agen": 0, "which": "", "feat": False,
     "status": 0, "kind": "", "inv": 0, "pl": 0, "reason": "", "net": "",
     "base": "", "gen": 0, "pk": "", "err": "", "cause": "",
@@ -103,6 +103,11 @@ def suffix_after(raw_events, mark_name):
                 e["arn"] = e["arn"][:m.start()] + ":k%d" % (int(m.group(1)) - k0)
             if re.match(r"^p\d+$", e.get("payload", "") or "") and int(e["payload"][1:]) > k0:
                 e["payload"] = "p%d" % (int(e["payload"][1:]) - k0)
+        if e.get("ev") == "InvokeMsg":
+            # the identity string names the generation of the runtime: renumbered too; one of before the mark stays foreign
+            m = re.match(r"^vrt-g(\d+)/1\.0$", e.get("release", "") or "")
+            if m:
+                e["release"] = "vrt-g%d/1.0" % (int(m.group(1)) - g0) if int(m.group(1)) > g0 else "vrt-before-the-reset"
         if e.get("ev") in ("NextCall", "ExtInitErrCall", "ExtExitErrCall") and "idgen" in e:
             pass
         out.append(e)
@@ -237,9 +242,10 @@ def project(raw_events, scenario, bound=None):
                 elif ev["kind"] == "rt" and not envm.get("AWS_CONTAINER_AUTHORIZATION_TOKEN"):
                     o["err"] = "no-credentials-token-in-environment"
         elif kind == "NextCall" and ev.get("abortAfter") is not None:
-            o.update(e="Call", cid=ev["seq"], who="rt", api="next", gen=ev.get("gen", 0))
+            o.update(e="Call", cid=ev["seq"], who="rt", api="next", gen=ev.get("gen", 0), relrec=bool(opt.get("recordRelease")))
         elif kind in CALLS:
             o.update(e="Call", cid=ev["seq"], who=who_of(ev.get("who", ev["actor"])), api=CALLS[kind], gen=ev.get("gen", 0))
+            o["relrec"] = bool(opt.get("recordRelease")) and o["who"] == "rt"
             open_calls.append((ev["seq"], o["who"], CALLS[kind]))
             if kind in ("RespCall", "ErrCall"):
                 o["id"] = reqk.get(ev.get("reqid", ""), 0)
@@ -308,6 +314,14 @@ def project(raw_events, scenario, bound=None):
                         # the bytes of this invocation's own payload (a label other than p<k> when the same bytes were
                         # seen earlier in the run, e.g. a one-byte payload equal to an earlier one-byte response)
                         o["pl"] = o["inv"]
+        elif kind == "InvokeMsg":
+            # what rapid handed to the server as the result of the invocation: its kind and the generation of the runtime
+            # whose identity string it carries (0: none, -1: something else)
+            m = re.match(r"^vrt-g(\d+)/1\.0$", ev.get("release", "") or "")
+            o.update(e="InvokeMsg", k=reqk.get(ev.get("reqid", ""), 0), kind=ev.get("kind", ""),
+                     rel=int(m.group(1)) if m else (0 if not ev.get("release") else -1))
+            if not o["k"]:
+                continue
         elif kind == "InvokeCall":
             inv_label[ev["k"]] = ev.get("payload", "")
             o.update(e="InvokeCall", caller=ev["caller"], k=ev["k"],
